@@ -65,6 +65,44 @@ func runC06(c *Ctx) {
 	for _, fn := range []*ssa.Function{c.a.MemWrite, c.a.BigFlush} {
 		headerLastRule(c, "C06.headerlast", fn)
 	}
+	// who-may-write-the-header: the schema / row counter keys are written only by the flush functions (and helpers
+	// reachable from them). A header written anywhere else (a constructor, an "initialise the file" step) is committed
+	// before the bitmaps exist.
+	flushReach := c.w.reach(c.a.MemWrite, c.a.BigFlush)
+	flushMemo = map[*ssa.Function]map[string]bool{}
+	nOut := 0
+	for _, fn := range c.w.ModFuncs {
+		if flushReach.Funcs[fn] {
+			continue
+		}
+		allInstrs(fn, func(i ssa.Instruction) {
+			cc := callCommon(i)
+			if cc == nil || calleeName(cc) != boltPut {
+				return
+			}
+			if k := keyKind(c, cc.Args[1]); k == "schema" || k == "rows" {
+				nOut++
+				c.r.bad("C06.headerwriters", safeFname(fn)+": "+k+" put", "the "+k+" key is written outside the flush functions: it reaches the file in a transaction that is committed before (or independently of) the bitmaps, so a crash leaves an openable index that misses data", []string{c.w.ipos(i)})
+			}
+		})
+		// helpers shared with a flush function but also called from here
+		allInstrs(fn, func(i ssa.Instruction) {
+			cc := callCommon(i)
+			if cc == nil {
+				return
+			}
+			if f := calleeFunc(cc); f != nil && c.w.inModule(f) && flushReach.Funcs[f] && f != c.a.MemWrite && f != c.a.BigFlush {
+				ev := funcFlushEvents(c, f, 3)
+				if ev["schema"] || ev["rows"] {
+					nOut++
+					c.r.bad("C06.headerwriters", safeFname(fn)+": call "+safeFname(f), "a helper that writes the schema / row counter is called outside the flush functions", []string{c.w.ipos(i)})
+				}
+			}
+		})
+	}
+	if nOut == 0 {
+		c.r.ok("C06.headerwriters", "module", fmt.Sprintf("schema and row counter keys are written only in functions reachable from the %d flush functions", 2))
+	}
 	openValidateRule(c, "C06.openvalidate")
 	c.r.expect("C06.headerlast", 6)
 	c.r.expect("C06.openvalidate", 5)
@@ -73,29 +111,123 @@ func runC06(c *Ctx) {
 const boltPut = "(*go.etcd.io/bbolt.Bucket).Put"
 const boltCommit = "(*go.etcd.io/bbolt.Tx).Commit"
 
-func headerLastRule(c *Ctx, rule string, fn *ssa.Function) {
-	name := safeFname(fn)
-	var hdr = map[string][]ssa.Instruction{}
-	var vals, commits []ssa.Instruction
-	allInstrs(fn, func(i ssa.Instruction) {
-		call, ok := i.(*ssa.Call)
-		if !ok {
-			return
-		}
-		switch calleeName(&call.Call) {
-		case boltPut:
-			switch k := keyKind(c, call.Call.Args[1]); k {
-			case "schema", "rows":
-				hdr[k] = append(hdr[k], i)
-			case "value":
-				vals = append(vals, i)
-			default:
-				c.r.undecided(rule, name+": put", "a Put into the data bucket whose key the rule cannot classify as schema, row counter or bitmap", c.w.ipos(i))
+// flushEvents classifies an instruction of a flush function: which of the events schema put / rows put / value put /
+// commit it performs, directly or through a module function it calls (depth-limited summary).
+func flushEvents(c *Ctx, i ssa.Instruction, depth int, undec *[]ssa.Instruction) map[string]bool {
+	out := map[string]bool{}
+	cc := callCommon(i)
+	if cc == nil {
+		return out
+	}
+	if _, isGo := i.(*ssa.Go); isGo {
+		return out
+	}
+	switch calleeName(cc) {
+	case boltPut:
+		switch k := keyKind(c, cc.Args[1]); k {
+		case "schema", "rows", "value":
+			out[k] = true
+		default:
+			if undec != nil {
+				*undec = append(*undec, i)
 			}
-		case boltCommit:
-			commits = append(commits, i)
+		}
+		return out
+	case boltCommit:
+		out["commit"] = true
+		return out
+	case "(*go.etcd.io/bbolt.DB).Update", "(*go.etcd.io/bbolt.DB).Batch":
+		// runs the callback in a transaction and commits it
+		out["commit"] = true
+		if len(cc.Args) > 1 && depth > 0 {
+			var cb *ssa.Function
+			switch v := cc.Args[1].(type) {
+			case *ssa.MakeClosure:
+				cb, _ = v.Fn.(*ssa.Function)
+			case *ssa.Function:
+				cb = v
+			}
+			if cb != nil {
+				for k := range funcFlushEvents(c, cb, depth-1) {
+					out[k] = true
+				}
+			}
+		}
+		return out
+	}
+	if f := calleeFunc(cc); f != nil && c.w.inModule(f) && f.Blocks != nil && depth > 0 {
+		for k := range funcFlushEvents(c, f, depth-1) {
+			out[k] = true
+		}
+	}
+	return out
+}
+
+var flushMemo = map[*ssa.Function]map[string]bool{}
+
+func funcFlushEvents(c *Ctx, f *ssa.Function, depth int) map[string]bool {
+	if m, ok := flushMemo[f]; ok {
+		return m
+	}
+	flushMemo[f] = map[string]bool{} // recursion guard
+	out := map[string]bool{}
+	allInstrs(f, func(i ssa.Instruction) {
+		for k := range flushEvents(c, i, depth, nil) {
+			out[k] = true
 		}
 	})
+	flushMemo[f] = out
+	return out
+}
+
+func headerLastRule(c *Ctx, rule string, fn *ssa.Function) {
+	flushMemo = map[*ssa.Function]map[string]bool{}
+	headerLastRule1(c, rule, fn, map[*ssa.Function]bool{})
+}
+
+func headerLastRule1(c *Ctx, rule string, fn *ssa.Function, done map[*ssa.Function]bool) {
+	if done[fn] {
+		return
+	}
+	done[fn] = true
+	name := safeFname(fn)
+	var hdr = map[string][]ssa.Instruction{}
+	var vals, commits, undec []ssa.Instruction
+	var helpers []*ssa.Function
+	allInstrs(fn, func(i ssa.Instruction) {
+		ev := flushEvents(c, i, 3, &undec)
+		if len(ev) == 0 {
+			return
+		}
+		for _, k := range []string{"schema", "rows"} {
+			if ev[k] {
+				hdr[k] = append(hdr[k], i)
+			}
+		}
+		if ev["value"] {
+			vals = append(vals, i)
+		}
+		if ev["commit"] {
+			commits = append(commits, i)
+		}
+		// a helper that itself performs several kinds of events is checked on its own as well
+		if cc := callCommon(i); cc != nil {
+			if f := calleeFunc(cc); f != nil && c.w.inModule(f) && len(ev) >= 2 {
+				helpers = append(helpers, f)
+			}
+		}
+	})
+	for _, u := range undec {
+		c.r.undecided(rule, name+": put", "a Put into the data bucket whose key the rule cannot classify as schema, row counter or bitmap", c.w.ipos(u))
+	}
+	defer func() {
+		for _, h := range helpers {
+			ev := funcFlushEvents(c, h, 3)
+			if ev["value"] && (ev["schema"] || ev["rows"]) {
+				headerLastRule1(c, rule, h, done)
+			}
+		}
+	}()
 	site := c.w.pos(fn.Pos())
 	for _, k := range []string{"schema", "rows"} {
 		if len(hdr[k]) == 0 {
@@ -123,7 +255,7 @@ func headerLastRule(c *Ctx, rule string, fn *ssa.Function) {
 	ok1 := true
 	for _, h := range allHdr {
 		for _, cm := range commits {
-			if !c.fc.reachableFrom(fn, h, cm) {
+			if h != cm && !c.fc.reachableFrom(fn, h, cm) {
 				continue
 			}
 			if p := c.fc.pathAvoiding(fn, cm, inList(vals), nil); p != nil {
@@ -148,7 +280,7 @@ func headerLastRule(c *Ctx, rule string, fn *ssa.Function) {
 				continue
 			}
 			for _, cm := range commits {
-				if c.fc.reachableFrom(fn, a, cm) && c.fc.reachableFrom(fn, cm, b) {
+				if cm != a && cm != b && c.fc.reachableFrom(fn, a, cm) && c.fc.reachableFrom(fn, cm, b) {
 					ok2 = false
 					c.r.bad(rule, name+": header split", "a Commit lies between the put of the schema and the put of the row counter: a crash in between leaves a file with half a header", []string{c.w.ipos(cm)})
 				}
